@@ -1,7 +1,7 @@
 (* C14 — property theorems only.  Each is closed by [exact] of a lemma from
    Proofs.v; the driver pins the statements with [Check] and prints the
    assumptions on every run. *)
-From Yv Require Import Common.Base C14.Model C14.Spec C14.Run C14.Chain C14.Proofs C14.ProofsPipe C14.ProofsRun C14.ProofsChain C14.ProofsUtf8.
+From Yv Require Import Common.Base C14.Model C14.Spec C14.Run C14.Chain C14.Proofs C14.ProofsPipe C14.ProofsRun C14.ProofsChain C14.ProofsUtf8 C14.ChainSpur C14.ProofsChainSpur C14.Blocking C14.ProofsBlocking.
 
 (* received ++ pipe content ++ unsent = payload, in every reachable state, for
    every configuration and every schedule (no hypothesis at all) *)
@@ -136,7 +136,48 @@ Theorem subst_value_ignores_trailing_newlines :
   forall s k, subst_value (s ++ repeat NL k) = subst_value s.
 Proof. exact subst_value_newlines. Qed.
 
+(* the same four facts for pipelines when every process may also be woken
+   spuriously at any time *)
+Theorem chain_spurious_conservation :
+  forall c chunks n es s, cfg_ok c -> Forall cevent_ok es ->
+    crun2 c (cinit chunks n) es = Some s ->
+    crecvd s ++ buf (pout s) ++ content (top s) = concat chunks.
+Proof. exact chain2_conservation_lemma. Qed.
+
+Theorem chain_spurious_complete_in_order :
+  forall c chunks n es s, cfg_ok c -> Forall cevent_ok es ->
+    crun2 c (cinit chunks n) es = Some s ->
+    (forall l, clabel_ok l -> cstep c s l = None) ->
+    cfinished s = true /\ crecvd s = concat chunks.
+Proof. exact chain2_complete_lemma. Qed.
+
+Theorem chain_spurious_no_deadlock :
+  forall c chunks n es s, cfg_ok c -> Forall cevent_ok es ->
+    crun2 c (cinit chunks n) es = Some s -> cfinished s = false ->
+    exists l, clabel_ok l /\ cstep c s l <> None.
+Proof. exact chain2_no_deadlock_lemma. Qed.
+
+Theorem chain_spurious_terminates :
+  forall c chunks n es s, cfg_ok c -> Forall cevent_ok es ->
+    crun2 c (cinit chunks n) es = Some s ->
+    length es <= chain_bound chunks n + 2 * count_spur es.
+Proof. exact chain2_terminates_lemma. Qed.
+
+(* the blocking-mode write (poll_write_full): whatever it does in one poll, it
+   only appends the next bytes of its request to the pipe *)
+Theorem blocking_write_appends_in_order :
+  forall fuel c p data written r p' w',
+    write_full fuel c p data written = (r, p', w') ->
+    written <= w' /\ buf p' = buf p ++ firstn (w' - written) (skipn written data)
+    /\ rrefs p' = rrefs p /\ wrefs p' = wrefs p.
+Proof. exact write_full_appends. Qed.
+
 Print Assumptions pipe_conservation.
+Print Assumptions blocking_write_appends_in_order.
+Print Assumptions chain_spurious_conservation.
+Print Assumptions chain_spurious_complete_in_order.
+Print Assumptions chain_spurious_no_deadlock.
+Print Assumptions chain_spurious_terminates.
 Print Assumptions subst_value_is_stripped_decoding.
 Print Assumptions lossy_decoding_keeps_trailing_newlines.
 Print Assumptions subst_value_ignores_trailing_newlines.
